@@ -6,6 +6,7 @@ import (
 	"runtime/pprof"
 	"slices"
 	"strings"
+	"sync/atomic"
 	"time"
 )
 
@@ -23,8 +24,12 @@ import (
 // https://web.archive.org/web/20070808093935/http://www.brucemo.com/compchess/programming/pv.htm
 type Search struct {
 	bestLineAtDepth [MaxSearchDepth][]Move
-	stop            chan bool
-	interrupted     bool
+	// stop requests from the command thread; buffered so that sending never blocks
+	stop chan bool
+	// touched only by the search thread
+	interrupted bool
+	// true from the moment 'go' is accepted until just before 'bestmove' is printed
+	running atomic.Bool
 }
 // killerMoves [ply][]
 var  killerMoves [][2]Move = make([][2]Move, killerMovesMaxPly)
@@ -37,7 +42,7 @@ func NewSearch() *Search {
 	for i := 0; i < len(search.bestLineAtDepth); i++ {
 		search.bestLineAtDepth[i] = make([]Move, MaxSearchDepth-i)
 	}
-	search.stop = make(chan bool)
+	search.stop = make(chan bool, 1)
 	search.interrupted = true
 	return search
 }
@@ -90,6 +95,7 @@ func (search *Search) StartIterativeDeepening(startTime, endTime time.Time, maxD
 			}
 		}
 	}
+	search.running.Store(false)
 	printInfo(bestScore, depthCompleted, bestLine.moves, time.Since(startTime), "")
 	fmt.Println("bestmove", bestLine.moves[0])
 }
